@@ -401,7 +401,7 @@ def c02d(ctx):
         if elt is None:
             app = [x for x in ts.walk() if isinstance(x, ast.Call) and simple_name(x) == 'append' and x.args]
             elt = app[0].args[0] if app else None
-        ok = elt is not None and unparse(elt).replace(' ', '') == '(%s,self.grid.resolutions[%s])' % (order, level)
+        ok = elt is not None and same(elt, '(%s,self.grid.resolutions[%s])' % (order, level))
     ctx.check(ok, 'TileServiceGrid.tile_sets:order-resolution', 'order k is paired with the resolution of internal level start + k*step', ts)
 
 
